@@ -51,6 +51,10 @@ ALFA,Alfa,Food,Grocery,ta
 ALFA[amount>1000],Alfa Big,Big,,
 PAYROLL,Payroll,Income,Salary,income
 '''
+VIEWS_CORRUPT = '[Food]\nfilter: category == "Food"\n\n[Costly\nfilter: total > 1000\n'
+CURRENCY = {'absent': '${amount}', 'usd': '${amount}', 'eur': '\u20ac{amount}', 'zl': '{amount} zl'}
+WARNING_TEXT = {'invalid-rule-mode': 'Invalid rule_mode', 'merchants-file-not-found': 'Merchants file not found',
+                'views-file-not-found': 'Views file not found', 'views-error': 'Error loading views'}
 VIEWS_TEXT = '[Food]\nfilter: category == "Food"\n\n[Costly]\nfilter: total > 1000\n'
 RULE_NAMES = {1: 'Alfa', 2: 'Alfa Big', 3: 'Refunds', 4: 'Payroll', 5: 'Matched', 6: 'Wallet'}
 TABLES = {'f1': [('d1', 'A', 'p1250'), ('bad30', 'A', 'p1250'), ('d2', 'Bp', 'm3'), ('d1', 'A', 'thou'), ('d2', 'pay', 'big'),
@@ -90,17 +94,29 @@ def materialise_budget(root, b, rnd):
     if b['supp']:
         srcs.append('  - name: orders\n    file: data/orders.csv\n    format: "{date:%m/%d/%Y},{item},{amount}"\n    columns:\n      description: "{item}"\n    supplemental: true')
         files['data/orders.csv'] = 'Date,Item,Amount\n01/04/2025,Widget,12.50\n01/09/2025,Gadget,"1,234.56"\n'
-    settings = 'year: 2025\ndata_sources:\n' + '\n'.join(srcs) + '\n'
+    settings = ('year: 2024\n' if b.get('year') == 'y2024' else '') + 'data_sources:\n' + '\n'.join(srcs) + '\n'
+    if b.get('out') == 'custom':
+        settings += 'output_dir: reports\nhtml_filename: summary.html\n'
     if b['rules'] == 'rules':
         settings += 'merchants_file: config/merchants.rules\n'
-        files['config/merchants.rules'] = (XFORM_LINE + '\n' if b.get('xform') else '') + RULES_TEXT
+        if b.get('mfMissing'):
+            files['config/merchant_categories.csv'] = CSV_TEXT       # a legacy file lying next to the dangling key: not to be used
+        else:
+            files['config/merchants.rules'] = (XFORM_LINE + '\n' if b.get('xform') else '') + RULES_TEXT
     elif b['rules'] == 'csv':
         files['config/merchant_categories.csv'] = CSV_TEXT
-    if b['mode'] == 'most_specific':
+    if b.get('modeBogus'):
+        settings += 'rule_mode: fastest\n'
+    elif b['mode'] == 'most_specific':
         settings += 'rule_mode: most_specific\n'
     if b['views']:
         settings += 'views_file: config/views.rules\n'
-        files['config/views.rules'] = VIEWS_TEXT
+        if b.get('vf', 'ok') == 'ok':
+            files['config/views.rules'] = VIEWS_TEXT
+        elif b['vf'] == 'corrupt':
+            files['config/views.rules'] = VIEWS_CORRUPT
+    if b.get('cur', 'absent') != 'absent':
+        settings += 'currency_format: "%s"\n' % CURRENCY[b['cur']]
     files['config/settings.yaml'] = settings
     cli.materialise(root, files)
     return settings
@@ -148,7 +164,8 @@ def run_budget(b, rep, seed, want_json=False):
         settings = materialise_budget(d, b, rnd)
         r = cli.run_tally(['up'], cwd=d)
         etx, eflows = expected(b, rep)
-        html = os.path.join(d, 'output', 'spending_summary.html')
+        out_dir, out_name = (rep.get('cfg') or {}).get('out') or ['output', 'spending_summary.html']
+        html = os.path.join(d, out_dir, out_name)
         diffs = []
         obs_by_src = {}
         if not etx:
@@ -176,13 +193,35 @@ def run_budget(b, rep, seed, want_json=False):
         for s in b['sources']:
             if s['status'] == 'missing' and ('%s: File not found' % s['name']) not in r['out']:
                 diffs.append(('missing-source-not-reported', 'source %s is missing but the output does not say so' % s['name']))
-        if b['views']:
+        cfg = rep.get('cfg')
+        if cfg:
+            if data.get('year') != cfg['year'] or ('Tally - %d' % cfg['year']) not in r['out']:
+                diffs.append(('year', 'report year %r / headline, settings say %r' % (data.get('year'), cfg['year'])))
+            if [out_dir, out_name] != ['output', 'spending_summary.html'] and os.path.exists(os.path.join(d, 'output', 'spending_summary.html')):
+                diffs.append(('output-path', 'a report was also written to the default output/spending_summary.html'))
+            if data.get('currencyFormat') != CURRENCY[cfg['currency']]:
+                diffs.append(('currency', 'report carries currencyFormat %r, settings say %r' % (data.get('currencyFormat'), CURRENCY[cfg['currency']])))
+            for w, text in WARNING_TEXT.items():
+                if (w in cfg['warnings']) != (text in r['err']):
+                    diffs.append(('warning-' + w, 'setting problem %s: %s' % (w, 'not reported' if w in cfg['warnings'] else 'reported although nothing is wrong')))
+        if (cfg['views'] if cfg else b['views']):
             food = sorted({t['merchant'] for t in otx if t['category'] == 'Food' and not ({'income', 'transfer', 'investment'} & set(t['tags']))})
             secs = {s_['title']: sorted(m['displayName'] for m in s_['merchants'].values()) for s_ in data['sections'].values()}
             if secs.get('Food', []) != food:
                 diffs.append(('views', 'view Food lists %s, merchants with category Food are %s' % (secs.get('Food'), food)))
         elif data['sections']:
             diffs.append(('views', 'sections present although no views file is configured'))
+        if want_json and cfg and not cfg['views']:
+            # the text summary prints the cash-flow lines in the configured currency format
+            sm = cli.run_tally(['up', '--format', 'summary'], cwd=d)
+            for label, keyf in (('Income:', 'income'), ('Spending:', 'spending')):
+                line = next((l for l in sm['out'].splitlines() if l.startswith(label)), None)
+                cents = rep['flows'][keyf]
+                lo, hi = cents // 100, -(-cents // 100)
+                ok_texts = {CURRENCY[cfg['currency']].format(amount='{:,}'.format(v)) for v in (lo, hi)} if cents % 100 == 50 else \
+                    {CURRENCY[cfg['currency']].format(amount='{:,}'.format((cents + 50) // 100))}
+                if line is None or line.split(None, 1)[1].strip().lstrip('+-').strip() not in ok_texts:
+                    diffs.append(('summary-currency', 'text summary line %r, expected %s %s' % (line, label, sorted(ok_texts))))
         if want_json:
             j = cli.run_tally(['up', '--format', 'json', '-v', '-q'], cwd=d)
             js = cli.parse_json_out(j['out'])
@@ -222,6 +261,94 @@ def walk_worker(item):
     return name, out
 
 
+def config_worker(states):
+    """MC_Config states (every settings record) -> a real budget directory each -> config_loader.load_config, compared with
+    Config!Effective.  Files that exist but are not referenced are materialised too: they must be ignored."""
+    from tally.config_loader import load_config
+    out = []
+    for st in states:
+        s, eff = plain(st['s']), plain(st['eff'])
+        d = tempfile.mkdtemp(prefix='c11cfg_')
+        try:
+            y = ('year: 2024\n' if s['year'] == 'y2024' else '') + ('output_dir: reports\nhtml_filename: summary.html\n' if s['out'] == 'custom' else '') + 'data_sources:\n  - name: Card\n    file: data/card.csv\n    format: "{date:%m/%d/%Y},{description},{amount}"\n'
+            files = {'data/card.csv': 'Date,Description,Amount\n01/05/2025,ALFA STORE,12.50\n'}
+            if s['modeKey'] != 'absent':
+                y += 'rule_mode: %s\n' % ('fastest' if s['modeKey'] == 'bogus' else s['modeKey'])
+            if s['mfKey']:
+                y += 'merchants_file: config/merchants.rules\n'
+            if s['mfFile']:
+                files['config/merchants.rules'] = RULES_TEXT
+            if s['csvFile']:
+                files['config/merchant_categories.csv'] = CSV_TEXT
+            if s['vfKey']:
+                y += 'views_file: config/views.rules\n'
+            if s['vfFile'] != 'missing':
+                files['config/views.rules'] = VIEWS_TEXT if s['vfFile'] == 'ok' else VIEWS_CORRUPT
+            if s['cur'] != 'absent':
+                y += 'currency_format: "%s"\n' % CURRENCY[s['cur']]
+            files['config/settings.yaml'] = y
+            cli.materialise(d, files)
+            try:
+                cfg = load_config(os.path.join(d, 'config'))
+            except Exception as e:
+                out.append((s, [('load_config-raises', repr(e))]))
+                continue
+            seen = set()
+            for w in cfg.get('_warnings', []):
+                k = next((k for k, text in WARNING_TEXT.items() if text in w.get('message', '')), None)
+                seen.add(k or 'other: ' + w.get('message', '')[:60])
+            obs = {'mode': cfg.get('rule_mode'), 'rules': {'new': 'rules', 'csv': 'csv', None: 'none'}.get(cfg.get('_merchants_format'), '?'),
+                   'views': cfg.get('sections') is not None, 'currency': cfg.get('currency_format'), 'warnings': sorted(seen),
+                   'year': cfg.get('year', 2025), 'out': [cfg.get('output_dir', 'output'), cfg.get('html_filename', 'spending_summary.html')]}
+            want = {'mode': eff['mode'], 'rules': eff['rules'], 'views': eff['views'], 'currency': CURRENCY[eff['currency']],
+                    'warnings': sorted(eff['warnings']), 'year': eff['year'], 'out': list(eff['out'])}
+            diffs = [('config-' + k, 'load_config gives %s = %r, Config!Effective says %r' % (k, obs[k], want[k])) for k in want if obs[k] != want[k]]
+            # the file a run will read must be the one the settings name
+            if eff['rules'] == 'rules' and not str(cfg.get('_merchants_file', '')).endswith('merchants.rules'):
+                diffs.append(('config-rules-path', 'rules file used: %r' % cfg.get('_merchants_file')))
+            if eff['rules'] == 'csv' and not str(cfg.get('_merchants_file', '')).endswith('merchant_categories.csv'):
+                diffs.append(('config-rules-path', 'rules file used: %r' % cfg.get('_merchants_file')))
+            # `tally diag` on the same directory: the health findings and the headline values
+            import argparse, contextlib, io
+            from tally.commands.diag import cmd_diag
+            buf = io.StringIO()
+            try:
+                with contextlib.redirect_stdout(buf), contextlib.redirect_stderr(io.StringIO()):
+                    cmd_diag(argparse.Namespace(config=os.path.join(d, 'config'), settings='settings.yaml', format='text'))
+            except SystemExit:
+                pass
+            except Exception as e:
+                diffs.append(('diag-raises', repr(e)))
+            text = buf.getvalue()
+            found = set()
+            for line in text.splitlines():
+                if 'Legacy merchant_categories.csv found' in line:
+                    found.add('legacy-csv')
+                if 'config/merchants.rules exists but not in settings.yaml' in line:
+                    found.add('rules-unreferenced')
+                if 'No merchant rules configured' in line:
+                    found.add('no-rules')
+                if 'config/views.rules exists but not in settings.yaml' in line:
+                    found.add('views-unreferenced')
+                for key, name in (('merchants_file: config/merchants.rules', 'mf'), ('views_file: config/views.rules', 'vf')):
+                    if key in line and '\u2713' in line:
+                        found.add(name + '-ok')
+                    if key in line and '\u2717' in line:
+                        found.add(name + '-missing')
+            want_diag = set(plain(st['diag']))
+            if found != want_diag:
+                diffs.append(('diag-findings', 'tally diag reports %s, Config!Diag says %s' % (sorted(found), sorted(want_diag))))
+            heads = {'Rule mode: ' + eff['mode'], 'Currency format: ' + CURRENCY[eff['currency']],
+                     'Year: ' + ('2024' if s['year'] == 'y2024' else 'not set'), 'Output dir: ' + ('reports' if s['out'] == 'custom' else 'not set')}
+            missing = [h for h in heads if h not in text]
+            if missing:
+                diffs.append(('diag-headline', 'tally diag does not print %s' % missing))
+            out.append((s, diffs))
+        finally:
+            shutil.rmtree(d, ignore_errors=True)
+    return out
+
+
 def pair_worker(item):
     b, rep, seed = item
     out = []
@@ -257,6 +384,25 @@ def run(ck):
         walks = [(os.path.basename(f), states, ck.seed * 100 + i) for i, (f, (labels, states)) in enumerate(simtrace.behaviours(tmp))]
     finally:
         shutil.rmtree(tmp, ignore_errors=True)
+    # Config.tla: every settings record against the real load_config
+    ck.expect_model_violation('MC_Config/neg', tlc.run('MC_Config', 'MC_Config_neg.cfg'), 'Neg_CsvAlwaysUsed')
+    tmp = tempfile.mkdtemp(prefix='c11cfg_')
+    try:
+        import tlaval
+        dump = os.path.join(tmp, 'cfg.dump')
+        ck.expect_model_ok('MC_Config', tlc.run('MC_Config', 'MC_Config.cfg', dump=dump))
+        cstates = list(tlaval.parse_dump(dump))
+    finally:
+        shutil.rmtree(tmp, ignore_errors=True)
+    for chunk in par.pmap(config_worker, [cstates[k:k + 40] for k in range(0, len(cstates), 40)]):
+        for s_, diffs in chunk:
+            ck.case(n=1)
+            ck.trace(1)
+            ck.case('cfg:' + json.dumps(s_, sort_keys=True), nontrivial=bool(s_['mfKey'] or s_['vfKey'] or s_['modeKey'] != 'absent'), n=0)
+            for clause, detail in diffs:
+                ck.violation({'site': 'load_config', 'clause': clause}, {'settings': s_, 'detail': detail},
+                             'settings %s: %s' % (json.dumps(s_, sort_keys=True), detail))
+    ck.extra['config_records'] = len(cstates)
     # every budget of two sources with textually identical format strings, one or two settings away from each other
     tmp = tempfile.mkdtemp(prefix='c11pairs_')
     try:
@@ -281,11 +427,11 @@ def run(ck):
                 seen_settings.add((s['layout'], s['sign'], s['dec'], s['header'], s['delim'], s['status']))
             for clause, detail in diffs:
                 ck.violation(signature(b, clause), {'budget': b, 'settings_yaml': raw.get('settings'), 'detail': detail, 'raw': {k: v for k, v in raw.items() if k != 'settings'}},
-                             '`tally up` on budget %s: %s' % (json.dumps({k: b[k] for k in ('rules', 'mode', 'supp', 'views', 'xform')}), detail))
+                             '`tally up` on budget %s: %s' % (json.dumps({k: b.get(k) for k in ('rules', 'mode', 'supp', 'views', 'xform', 'cur', 'modeBogus', 'mfMissing', 'vf', 'year', 'out')}), detail))
     ck.extra['distinct_source_settings_exercised'] = len(seen_settings)
     ck.sample({'budget': walks[0][1] and plain(walks[0][1][-1]['b'])})
-    ck.extra['rule'] = ('TLC -simulate walks over MC_Pipeline (each step changes one setting of one source - layout, sign mode, decimal separator, '
-                        'header, delimiter, present/missing - or the rules kind, rule mode, supplemental source, views, description transform, or adds a source); every '
+    ck.extra['rule'] = ('all 2304 settings records of Config.tla against the real load_config and `tally diag` (findings compared with Config!Diag); TLC -simulate walks over MC_Pipeline (each step changes one setting of one source - layout, sign mode, decimal separator, '
+                        'header, delimiter, present/missing - or the rules kind, rule mode, supplemental source, views, description transform, currency format, a misspelt rule_mode, a dangling merchants_file, a missing / unparsable views file, or adds a source); every '
                         'budget on the walk is materialised and run through the real `tally up`; the decoded report is compared per transaction '
                         'and per flow with Pipeline!Report and consecutive budgets are compared with each other; plus (exhaustively, from the TLC state dump) every budget of two sources with the same format string that is one or two setting changes away from the identical pair, negation in both spellings. non-trivial = two sources or rules')
     ck.exhaustive = False
